@@ -583,3 +583,502 @@ func c08HandlerCtxLive(c *Ctx) {
 	}
 	c.R.Min("R-handler-ctx-live", 1)
 }
+
+// ---------------------------------------------------------------- R-error-whole (C15)
+// "A JSON-RPC error a middleware (or an inner stage) returns reaches the client as it is": code, message AND data. A
+// function that is handed a *JSONRPCError and takes it apart — reads Error.Code or Error.Message to build another
+// answer from them — reads Error.Data as well, or passes the object on whole.
+func c15ErrorWhole(c *Ctx) {
+	n := 0
+	for _, fn := range c.P.LibFns {
+		if clientSide(c, fn) {
+			continue
+		}
+		reads := map[string]map[string]ssa.Instruction{} // base path -> member -> first read
+		ir.EachInstr(fn, func(_ *ssa.BasicBlock, _ int, in ssa.Instruction) {
+			fa, ok := in.(*ssa.FieldAddr)
+			if !ok {
+				return
+			}
+			pt, ok := fa.X.Type().Underlying().(*types.Pointer)
+			if !ok {
+				return
+			}
+			st, ok := pt.Elem().Underlying().(*types.Struct)
+			if !ok {
+				return
+			}
+			name := st.Field(fa.Field).Name()
+			if name != "Code" && name != "Message" && name != "Data" {
+				return
+			}
+			// the anonymous Error member of a JSONRPCError
+			inner, ok := fa.X.(*ssa.FieldAddr)
+			if !ok {
+				return
+			}
+			key, owner, _, base := ir.FullField(inner)
+			if !strings.HasSuffix(owner, "JSONRPCError") || !strings.HasSuffix(key, ".Error") || ir.BaseAlloc(base) {
+				return
+			}
+			loaded := false
+			for _, r := range *fa.Referrers() {
+				if u, ok := r.(*ssa.UnOp); ok && u.Op == token.MUL {
+					loaded = true
+				}
+			}
+			if !loaded {
+				return
+			}
+			p := ir.Path(base)
+			if reads[p] == nil {
+				reads[p] = map[string]ssa.Instruction{}
+			}
+			if reads[p][name] == nil {
+				reads[p][name] = in
+			}
+		})
+		for p, m := range reads {
+			first := m["Code"]
+			if first == nil {
+				first = m["Message"]
+			}
+			if first == nil {
+				continue
+			}
+			n++
+			c.R.Check(m["Data"] != nil, "R-error-whole", sprintf("members of the error object %s read in %s", p, fname(fn)), c.Pos(first.Pos()),
+				"Data is read alongside Code / Message",
+				sprintf("%s takes the code and message out of a JSON-RPC error object it was handed (%s) without reading its data member: the answer built from them has lost `data`, so the error a middleware (or the handler) returned does not reach the client as it was", fname(fn), p))
+		}
+	}
+	if n == 0 {
+		c.R.Hold("R-error-whole", "no server-side function takes a JSON-RPC error object apart", "", "error objects returned through the chain are passed on whole")
+	}
+}
+
+// ---------------------------------------------------------------- R-no-lock-across-dispatch (C14)
+// Requests of one session are served concurrently on every transport: a handler may wait for another in-flight call of
+// the same session (or for the client's answer to a request it sent). No mutex is held where a transport hands a
+// request to the dispatcher — a per-session "handler lock" on one transport serialises what the others run in
+// parallel, and two calls that depend on each other time out there only.
+func c14NoLockAcrossDispatch(c *Ctx) {
+	n := 0
+	for _, fn := range c.P.LibFns {
+		if clientSide(c, fn) {
+			continue
+		}
+		cnt := 0
+		ir.EachInstr(fn, func(_ *ssa.BasicBlock, _ int, in ssa.Instruction) {
+			call, ok := in.(ssa.CallInstruction)
+			if !ok || !c.isDispatchCall(call) {
+				return
+			}
+			n++
+			cnt++
+			held := c.Locks().At(in)
+			var keys []string
+			for k := range held {
+				keys = append(keys, k)
+			}
+			c.R.Check(len(keys) == 0, "R-no-lock-across-dispatch", sprintf("locks held at dispatch site #%d in %s", cnt, fname(fn)), c.Pos(in.Pos()),
+				"none",
+				sprintf("%s hands the request to the dispatcher while holding %s: requests that share that lock are served one at a time on this transport only, so calls that wait for each other (or for the client's answer to a server request) succeed elsewhere and time out here", fname(fn), strings.Join(keys, ", ")))
+		})
+	}
+	c.R.Min("R-no-lock-across-dispatch", 3)
+}
+
+// ---------------------------------------------------------------- R-ctor-state (C16)
+// "A fresh client reports disconnected": where several library functions build objects of one type with composite
+// literals, a member of a library-declared enumeration type (a named type with constants, such as the connection
+// state) that one of them initialises with a constant is initialised by every one of them — a constructor written out
+// a second time that forgets the member leaves the object in the type's zero value, a state the API never names.
+func c16CtorState(c *Ctx) {
+	type init struct {
+		fn    *ssa.Function
+		at    ssa.Instruction
+		enums map[string]bool
+	}
+	byType := map[*types.Named][]init{}
+	for _, fn := range c.P.LibFns {
+		ir.EachInstr(fn, func(_ *ssa.BasicBlock, _ int, in ssa.Instruction) {
+			al, ok := in.(*ssa.Alloc)
+			if !ok || !al.Heap || al.Comment != "complit" {
+				return
+			}
+			pt, ok := al.Type().Underlying().(*types.Pointer)
+			if !ok {
+				return
+			}
+			named, ok := pt.Elem().(*types.Named)
+			if !ok || !ir.InLibrary(named) {
+				return
+			}
+			st, ok := named.Underlying().(*types.Struct)
+			if !ok {
+				return
+			}
+			// only objects the function hands out (a throw-away value built to be inspected is nobody's state)
+			returned := false
+			for _, r := range *al.Referrers() {
+				if ret, ok := r.(*ssa.Return); ok {
+					_ = ret
+					returned = true
+				}
+			}
+			if !returned {
+				return
+			}
+			it := init{fn: fn, at: in, enums: map[string]bool{}}
+			for _, r := range *al.Referrers() {
+				fa, ok := r.(*ssa.FieldAddr)
+				if !ok {
+					continue
+				}
+				ft, ok := st.Field(fa.Field).Type().(*types.Named)
+				if !ok || !ir.InLibrary(ft) {
+					continue
+				}
+				if _, isBasic := ft.Underlying().(*types.Basic); !isBasic {
+					continue
+				}
+				for _, u := range *fa.Referrers() {
+					if s2, ok := u.(*ssa.Store); ok && s2.Addr == ssa.Value(fa) {
+						if _, isConst := s2.Val.(*ssa.Const); isConst {
+							it.enums[st.Field(fa.Field).Name()] = true
+						}
+					}
+				}
+			}
+			byType[named] = append(byType[named], it)
+		})
+	}
+	n := 0
+	var names []*types.Named
+	for t := range byType {
+		names = append(names, t)
+	}
+	sortNamed(names)
+	for _, t := range names {
+		inits := byType[t]
+		all := map[string]bool{}
+		fns := map[*ssa.Function]bool{}
+		for _, it := range inits {
+			fns[it.fn] = true
+			for k := range it.enums {
+				all[k] = true
+			}
+		}
+		if len(fns) < 2 || len(all) == 0 {
+			continue
+		}
+		for _, it := range inits {
+			n++
+			var missing []string
+			for k := range all {
+				if !it.enums[k] {
+					missing = append(missing, k)
+				}
+			}
+			sortStrings(missing)
+			c.R.Check(len(missing) == 0, "R-ctor-state", sprintf("%s built in %s", t.Obj().Name(), fname(it.fn)), c.Pos(it.at.Pos()),
+				"initialises the same enumeration members as the type's other constructors",
+				sprintf("%s builds a %s without initialising %s, which the type's other constructor(s) set to a named constant: the object starts in the zero value of that enumeration — a state the API never names (a fresh client does not report \"disconnected\")", fname(it.fn), t.Obj().Name(), strings.Join(missing, ", ")))
+		}
+	}
+	if n == 0 {
+		c.R.Hold("R-ctor-state", "no library type with enumeration members is built by more than one function", "", "")
+	}
+}
+
+func sortNamed(ns []*types.Named) {
+	for i := 1; i < len(ns); i++ {
+		for j := i; j > 0 && ns[j].Obj().Name() < ns[j-1].Obj().Name(); j-- {
+			ns[j], ns[j-1] = ns[j-1], ns[j]
+		}
+	}
+}
+
+func sortStrings(ss []string) {
+	for i := 1; i < len(ss); i++ {
+		for j := i; j > 0 && ss[j] < ss[j-1]; j-- {
+			ss[j], ss[j-1] = ss[j-1], ss[j]
+		}
+	}
+}
+
+// ---------------------------------------------------------------- R-schema-walk-complete (C18)
+// The generators put a schema's children in three places: Properties (struct members), Items (slice elements) and
+// AdditionalProperties (map values). A function that walks a schema recursively and looks into Properties and Items
+// but not into AdditionalProperties does not see what is nested under map values — a reference that exists only there
+// (a type that recurses through a map) is taken for absent, and what the walk decides (dropping a definition,
+// collecting references) leaves a `$ref` that resolves to nothing.
+func c18SchemaWalkComplete(c *Ctx) {
+	n := 0
+	for _, fn := range c.P.LibFns {
+		recursive := false
+		ir.EachCall(fn, func(call ssa.CallInstruction) {
+			if sc := ir.StaticCallee(call); sc != nil && (sc == fn || (sc.Origin() != nil && sc.Origin() == fn)) {
+				recursive = true
+			}
+		})
+		if !recursive {
+			continue
+		}
+		reads := map[string]ssa.Instruction{}
+		ir.EachInstr(fn, func(_ *ssa.BasicBlock, _ int, in ssa.Instruction) {
+			fa, ok := in.(*ssa.FieldAddr)
+			if !ok {
+				return
+			}
+			pt, ok := fa.X.Type().Underlying().(*types.Pointer)
+			if !ok {
+				return
+			}
+			nm, ok := pt.Elem().(*types.Named)
+			if !ok || nm.Obj().Name() != "Schema" {
+				return
+			}
+			st, ok := nm.Underlying().(*types.Struct)
+			if !ok {
+				return
+			}
+			loaded := false
+			for _, r := range *fa.Referrers() {
+				switch u := r.(type) {
+				case *ssa.UnOp:
+					if u.Op == token.MUL {
+						loaded = true
+					}
+				case *ssa.FieldAddr:
+					loaded = true
+				}
+			}
+			if loaded && reads[st.Field(fa.Field).Name()] == nil {
+				reads[st.Field(fa.Field).Name()] = in
+			}
+		})
+		if reads["Properties"] == nil || reads["Items"] == nil {
+			continue
+		}
+		n++
+		c.R.Check(reads["AdditionalProperties"] != nil, "R-schema-walk-complete", "children visited by "+fname(fn), c.Pos(reads["Properties"].Pos()),
+			"Properties, Items and AdditionalProperties",
+			sprintf("%s walks a schema recursively through Properties and Items but never looks at AdditionalProperties, where the generators put the schema of map values: what is nested only there (a type that recurses through a map) is invisible to the walk, and a decision based on it (a definition dropped as unreferenced) leaves a $ref that no longer resolves", fname(fn)))
+	}
+	if n == 0 {
+		c.R.Hold("R-schema-walk-complete", "no library function walks generated schemas recursively", "", "schemas are used as generated")
+	}
+}
+
+// ---------------------------------------------------------------- R-field-kept (C18)
+// encoding/json emits every exported member that is not tagged "-". A struct-field walker that skips a member when a
+// tag-processing helper reports an error must therefore rely on a helper that never does: if the helper (handed the
+// field's tag or the field) can return a non-nil error, a member with an unusual tag vanishes from the schema while the
+// encoder still writes it — the schema rejects (or does not describe) the real encoding.
+func c18FieldKept(c *Ctx, gens []*ssa.Function) {
+	n := 0
+	seen := map[string]bool{}
+	for _, g := range gens {
+		walks := false
+		ir.EachCall(g, func(call ssa.CallInstruction) {
+			if call.Common().IsInvoke() && call.Common().Method.Name() == "NumField" {
+				walks = true
+			}
+		})
+		if !walks {
+			continue
+		}
+		ir.EachInstr(g, func(_ *ssa.BasicBlock, _ int, in ssa.Instruction) {
+			call, ok := in.(*ssa.Call)
+			if !ok {
+				return
+			}
+			h := ir.StaticCallee(call)
+			if h == nil || !c.P.IsLib(h) || h.Blocks == nil {
+				return
+			}
+			res := h.Signature.Results()
+			if res.Len() == 0 || ir.TypeStr(res.At(res.Len()-1).Type()) != "error" {
+				return
+			}
+			tagged := false
+			for _, p := range h.Params {
+				if t := ir.TypeStr(p.Type()); t == "reflect.StructTag" || t == "reflect.StructField" {
+					tagged = true
+				}
+			}
+			if !tagged {
+				return
+			}
+			// is the error tested in the walker?
+			var errv ssa.Value = call
+			if res.Len() > 1 {
+				errv = nil
+				for _, r := range *call.Referrers() {
+					if ex, ok := r.(*ssa.Extract); ok && ex.Index == res.Len()-1 {
+						errv = ex
+					}
+				}
+			}
+			tested := false
+			if errv != nil && errv.Referrers() != nil {
+				for _, r := range *errv.Referrers() {
+					if b, ok := r.(*ssa.BinOp); ok {
+						if _, _, isNil := nilCompare(b); isNil {
+							tested = true
+						}
+					}
+				}
+			}
+			if !tested {
+				return
+			}
+			key := fname(g) + "/" + fname(h)
+			if seen[key] {
+				return
+			}
+			seen[key] = true
+			n++
+			var errReturn func(f *ssa.Function, d int) ssa.Instruction
+			errReturn = func(f *ssa.Function, d int) ssa.Instruction {
+				var bad ssa.Instruction
+				ir.EachInstr(f, func(_ *ssa.BasicBlock, _ int, hin ssa.Instruction) {
+					ret, ok := hin.(*ssa.Return)
+					if !ok || bad != nil {
+						return
+					}
+					rs := ir.Results(ret)
+					if len(rs) == 0 {
+						return
+					}
+					e := unspill(rs[len(rs)-1])
+					if ir.IsNilConst(e) {
+						return
+					}
+					// the error of another library helper, passed on: as good as that helper
+					if oc := originCall(e); oc != nil && d < 3 {
+						if sc := ir.StaticCallee(oc); sc != nil && c.P.IsLib(sc) && sc.Blocks != nil {
+							if inner := errReturn(sc, d+1); inner == nil {
+								return
+							}
+						}
+					}
+					bad = ret
+				})
+				return bad
+			}
+			bad := errReturn(h, 0)
+			detail := ""
+			if bad != nil {
+				detail = sprintf("%s skips a struct member when %s reports an error, and %s can return one (%s): a member whose tag it does not like is left out of the generated schema although encoding/json still emits it, so the schema no longer describes — or rejects — the value's real encoding", fname(g), fname(h), fname(h), ipos(c, bad))
+			}
+			c.R.Check(bad == nil, "R-field-kept", sprintf("members skipped by %s on an error of %s", fname(g), fname(h)), c.Pos(call.Pos()),
+				"the helper never returns an error, so no member is dropped", detail)
+		})
+	}
+	if n == 0 {
+		c.R.Hold("R-field-kept", "no field walker skips a member on the error of a tag helper", "", "")
+	}
+}
+
+// ---------------------------------------------------------------- R-flag-after-publish (C20)
+// A member that is published by closing a channel (written once, under sync.Once, before the close) is read without a
+// lock by whoever has received from that channel — or has seen a flag that says "already started". That flag is the
+// readers' only happens-before edge to the write, so it may be set only AFTER the receive: in every function that
+// receives from the publishing channel, a Store(true) / CompareAndSwap(…, true) on an atomic flag of the same object
+// is dominated by the receive. A flag claimed before the wait ("only one caller establishes the stream") lets a second
+// caller through while the member is still being written.
+func c20FlagAfterPublish(c *Ctx, g *FieldGuard) {
+	// the channel member(s) of the owner that the publishing closure closes
+	chans := map[string]bool{}
+	for _, a := range g.Accesses {
+		if !a.Write {
+			continue
+		}
+		ir.EachInstr(a.Fn, func(_ *ssa.BasicBlock, _ int, in ssa.Instruction) {
+			call, ok := in.(*ssa.Call)
+			if !ok || ir.CallName(call) != "builtin.close" {
+				return
+			}
+			if f, _, ok := ir.LoadedField(call.Call.Args[0]); ok && f.Struct != nil && ir.TypeKey(f.Struct) == ir.TypeKey(g.OwnerT) {
+				chans[f.Key()] = true
+			}
+		})
+	}
+	if len(chans) == 0 {
+		return
+	}
+	isRecv := func(in ssa.Instruction) bool {
+		switch x := in.(type) {
+		case *ssa.UnOp:
+			if x.Op == token.ARROW {
+				if f, _, ok := ir.LoadedField(ir.Unwrap(x.X)); ok && chans[f.Key()] {
+					return true
+				}
+			}
+		case *ssa.Select:
+			for _, st := range x.States {
+				if f, _, ok := ir.LoadedField(ir.Unwrap(st.Chan)); ok && chans[f.Key()] && st.Dir == types.RecvOnly {
+					return true
+				}
+			}
+		}
+		return false
+	}
+	n := 0
+	for _, fn := range c.P.LibFns {
+		var recvs []ssa.Instruction
+		ir.EachInstr(fn, func(_ *ssa.BasicBlock, _ int, in ssa.Instruction) {
+			if isRecv(in) {
+				recvs = append(recvs, in)
+			}
+		})
+		if len(recvs) == 0 {
+			continue
+		}
+		ir.EachInstr(fn, func(_ *ssa.BasicBlock, _ int, in ssa.Instruction) {
+			call, ok := in.(*ssa.Call)
+			if !ok {
+				return
+			}
+			name := ir.CallName(call)
+			setsTrue := false
+			switch name {
+			case "(*sync/atomic.Bool).Store":
+				if k, ok := call.Call.Args[len(call.Call.Args)-1].(*ssa.Const); ok && k.Value != nil && k.Value.String() == "true" {
+					setsTrue = true
+				}
+			case "(*sync/atomic.Bool).CompareAndSwap":
+				if k, ok := call.Call.Args[len(call.Call.Args)-1].(*ssa.Const); ok && k.Value != nil && k.Value.String() == "true" {
+					setsTrue = true
+				}
+			}
+			if !setsTrue {
+				return
+			}
+			fa, ok := call.Call.Args[0].(*ssa.FieldAddr)
+			if !ok {
+				return
+			}
+			key, owner, _, _ := ir.FullField(fa)
+			if owner != ir.TypeKey(g.OwnerT) && !strings.HasSuffix(ir.TypeKey(g.OwnerT), owner) {
+				return
+			}
+			n++
+			after := false
+			for _, r := range recvs {
+				if flow.Dominates(r, call) {
+					after = true
+				}
+			}
+			c.R.Check(after, "R-flag-after-publish", sprintf("%s set in %s", key, fname(fn)), c.Pos(call.Pos()),
+				"set only after the receive from the channel that publishes "+g.Field,
+				sprintf("%s sets the flag %s before it has received from the channel whose close publishes %s: a concurrent caller that sees the flag returns at once and reads %s while the reader goroutine may still be writing it — there is no happens-before edge between that write and this read", fname(fn), key, g.Field, g.Field))
+		})
+	}
+	if n == 0 {
+		c.R.Hold("R-flag-after-publish", "no flag is set in a function that waits for the publication of "+g.Field, "", "")
+	}
+}
